@@ -54,6 +54,12 @@ class EscapeOfHEProducts(ExactSolver):
 
         # check for illegal input values
 
+        if self.geometry != 1:
+            raise ValueError('Problem is axial only, geometry must be set to 1')
+
+        if self.gamma != 3:
+            raise ValueError('The solution is valid for gamma = 3 only')
+
         if self.D <= 0:
             raise ValueError('Detonation velocity must be > 0')
 
